@@ -4,7 +4,7 @@ from engine import atoms
 from engine.rulelib import fnview
 from engine.cfg import render, strip_ref, peel, subexprs
 
-CRATES = ["lightning_signer", "lightning_storage_server", "vls_frontend", "vlsd"]
+CRATES = ["lightning_signer", "lightning_storage_server", "vls_frontend", "vlsd", "vls_util", "vls_proxy"]
 LS = "lightning_signer::persist::"
 LSS = "lightning_storage_server::util::"
 
@@ -20,19 +20,23 @@ CLAIM = {
             "comparison; last_nonce is written only by new_nonce from the entropy source, and the put-side tags use "
             "the distinct constants 0x01/0x02; (R17.3) injectivity of the MAC input: every variable-length input of a "
             "MAC engine must be length-framed or be the final input of the stream; the unframed key and value inputs "
-            "of both add_to_hmac copies are reported (known findings). The asynchronous LSS client (`PrivClient::get`, "
-            "a compiler-generated state machine) is not decided. Cryptographic strength is not decided.",
-    "note": "bitcoin_hashes HmacEngine semantics by name; async state machines are outside the analysable MIR shape",
+            "of both add_to_hmac copies are reported (known findings); (R17.4) the reader of the externally stored state "
+            "(every caller of ExternalPersist::get; today ExternalPersistWithHelper::init_state, an async state "
+            "machine analysed as its coroutine body) sends the request only after new_nonce and can complete, or install "
+            "fetched records, only through the true edge of check_hmac. The per-value checks inside the LSS client "
+            "(`PrivClient::get`) are decided only through remove_and_check_hmac (R17.1). Cryptographic strength is not decided.",
+    "note": "bitcoin_hashes HmacEngine semantics by name; values are not traced across await points",
     "technique": "static analysis: ordered-effect extraction (MAC input sequence) + sibling agreement + return-value provenance",
 }
 
 
 def run(ctx):
     ctx.explanation = CLAIM["text"]
-    ctx.not_decided = "cryptographic strength; the async LSS client path (state-machine MIR)"
+    ctx.not_decided = "cryptographic strength; provenance of values across await points of the async read path"
     r171(ctx)
     r172(ctx)
     r173(ctx)
+    r174(ctx)
 
 
 def rpo(fv):
@@ -235,3 +239,53 @@ def r173(ctx):
                    f"`{fn}` feeds the variable-length `{txt}` into the MAC without a length prefix and it is not the final "
                    f"input of the stream: bytes can be moved between adjacent fields/records without changing the tag "
                    f"(two different record sets authenticate under one tag)", where=f"{b.file}:{line}")
+
+
+def r174(ctx):
+    ctx.rule("R17.4", "the read of the externally stored state is accepted only after check_hmac succeeded under a fresh "
+                      "nonce: every completion of the reader and every use of the fetched records passes the true edge of "
+                      "check_hmac; the request is sent only after new_nonce")
+    p = ctx.prog
+    GET = "vls_frontend::external_persist::ExternalPersist::get"
+    CHK = LS + "ExternalPersistHelper::check_hmac"
+    readers = {}
+    for b in p.bodies.values():
+        for bi, c in b.calls():
+            if (c.decl is not None and c.decl.name == GET) or (c.callee is not None and c.callee.name == GET):
+                readers.setdefault(b.d.id, (b, []))[1].append((bi, c))
+    ctx.floor("R17.4", "callers of ExternalPersist::get", len(readers), 1)
+    for b, gets in readers.values():
+        on = R.owner_name(p, b)
+        fv = fnview(ctx, b, policy=False)
+        chk = [(bi, c) for bi, c in b.calls() if c.callee is not None and c.callee.name == CHK]
+        ok_e = set()
+        for bi, c in chk:
+            ok_e |= fv.result_edges(bi, c, "ok")
+        ctx.ob("R17.4", bool(chk) and bool(ok_e), f"{on}/checks-mac", f"`{on}` reads external storage and never tests check_hmac",
+               where=f"{b.file}:{gets[0][1].line}", sample=f"{len(chk)} check_hmac call(s), result tested")
+        nonce = [bi for bi, c in b.calls() if c.callee is not None and c.callee.name == LS + "ExternalPersistHelper::new_nonce"]
+        for gbi, gc in gets:
+            ctx.ob("R17.4", bool(nonce) and gbi not in fv.reach(0, cut_nodes=set(nonce)), f"{on}/fresh-nonce",
+                   f"`{on}` sends the read request on a path that did not draw a fresh nonce (new_nonce)", where=f"{b.file}:{gc.line}",
+                   sample="get dominated by new_nonce")
+            after = set()
+            for t in b.term(gbi).targets[:1]:
+                after |= fv.reach(t, cut_edges=ok_e)
+            # completions (Poll::Ready / plain return of a non-async reader) and uses of the records without the MAC test
+            done = []
+            for bi in sorted(after):
+                for st in b.stmts(bi):
+                    if st.kind == "a" and st.place.local == 0 and st.rv.op == "agg" and isinstance(st.rv.a, tuple) \
+                       and st.rv.a[0] == "adt" and st.rv.a[1].name.endswith("task::Poll") and str(st.rv.a[2]).endswith("Ready"):
+                        done.append(st.line)
+                if b.term(bi).kind == "ret" and not b.local_tys[0].startswith("std::task::Poll"):
+                    done.append(b.term(bi).line)
+            ctx.ob("R17.4", bool(ok_e) and not done, f"{on}/completes-only-authenticated",
+                   f"`{on}` can complete (line {done[0] if done else 0}) after receiving a read response without check_hmac "
+                   f"having succeeded: an unauthenticated (e.g. truncated or replayed) response is accepted",
+                   where=f"{b.file}:{done[0] if done else gc.line}", sample="every completion after get passes check_hmac == true")
+            uses = [c.line for bi, c in b.calls() if bi in after and c.callee is not None
+                    and any(x in c.callee.name for x in ("BTreeMap::<K, V, A>::insert", "::extend", "State::insert", "::put"))]
+            ctx.ob("R17.4", bool(ok_e) and not uses, f"{on}/uses-only-authenticated",
+                   f"`{on}` stores fetched records (line {uses[0] if uses else 0}) before check_hmac succeeded",
+                   where=f"{b.file}:{uses[0] if uses else gc.line}", sample="records are installed only after check_hmac == true")
